@@ -40,6 +40,8 @@ theorem nest_accepts_iff_all (ls : List Layer) (b : Base) (a : Acct)
       rcases r with e | ⟨⟩ <;> cases hs : a.writable <;> simp
     | nsigner => simp [validateL, layerOk, ih]
     | nmut => simp [validateL, layerOk, ih]
+    | advw => simp [validateL, layerOk, ih]
+    | advs => simp [validateL, layerOk, ih]
     | addr k =>
       simp only [validateL, List.forall_mem_cons, and_assoc]
       rw [← ih]
@@ -94,6 +96,8 @@ theorem error_names_failing_check (ls : List Layer) (b : Base) (a : Acct) (e : E
           exact Or.inl ⟨.wr, List.mem_cons_self, by simp [layerOk, hs], rfl⟩
     | nsigner => exact lift (ih (by simpa [validateL] using h))
     | nmut => exact lift (ih (by simpa [validateL] using h))
+    | advw => exact lift (ih (by simpa [validateL] using h))
+    | advs => exact lift (ih (by simpa [validateL] using h))
     | addr k =>
       simp only [validateL] at h
       cases hf : fastEq32 a.key k with
@@ -106,9 +110,9 @@ theorem error_names_failing_check (ls : List Layer) (b : Base) (a : Acct) (e : E
 /-- The inner layers are checked before the outer ones: an error raised below a signer / mutable
 wrapper is reported unchanged. -/
 theorem inner_error_first (l : Layer) (ls : List Layer) (b : Base) (a : Acct) (e : Err)
-    (hl : l = .signer ∨ l = .wr ∨ l = .nsigner ∨ l = .nmut)
+    (hl : l = .signer ∨ l = .wr ∨ l = .nsigner ∨ l = .nmut ∨ l = .advw ∨ l = .advs)
     (h : validateL ls b a = .error e) : validateL (l :: ls) b a = .error e := by
-  rcases hl with rfl | rfl | rfl | rfl <;> simp [validateL, h]
+  rcases hl with rfl | rfl | rfl | rfl | rfl | rfl <;> simp [validateL, h]
 
 /-- Optional accounts: absent is accepted only under `Option`, present delegates to the nest. -/
 theorem optional_exact (n : Nest) :
